@@ -2,6 +2,7 @@ SPECIFICATION Spec
 CONSTANTS
   Denoms = {"eth"}
   Mods <- Mods0
+  AddrMode = "simple"
   Histories <- HistQ
 INVARIANTS Agree
 CHECK_DEADLOCK FALSE
